@@ -43,7 +43,7 @@ func iteS(c bool, a, b string) string {
 // emitted left-trimmed followed by one newline.
 //@ contract Parser.Parse
 //@   tags C17 C19 C10 C09
-//@   opt scan-complete C17
+//@   opt scan-complete C17 C10 C09
 //@   results buf wrote
 //@   loop 2 invariant len(p.Prefixes) == atLoopEntry(len(p.Prefixes))
 //@   loop 3 invariant len(p.Suffixes) == atLoopEntry(len(p.Suffixes))
@@ -225,6 +225,7 @@ func SpecWithRa(name string) string {
 //@   loop 0 invariant filename == SpecWithRa(old(filename)) && implies(OpaqueIsAbs(filename), filePath == filename)
 //@   loop 0 body[C05] path-tried: argOf(Open, 0) == iteS(OpaqueIsAbs(SpecWithRa(old(filename))), SpecWithRa(old(filename)), OpaqueFJoin2(directory, SpecWithRa(old(filename))))
 //@   checks[C05,C06] parsed-afresh-on-every-call: called(Parse) && called(mergePrefixesSuffixes)
+//@   checks[C05,C16] a-rejected-include-is-fatal: called(mergePrefixesSuffixes) && resultOf(mergePrefixesSuffixes, 1) == nil
 //@   loop 0 body[C05] include-dir-first: implies(rangeIndex0 == 1, directory == rootParser.ctx.rootContext.includeFilesDirectory) && implies(rangeIndex0 == 2, directory == rootParser.ctx.rootContext.excludeFilesDirectory)
 
 // ---- C19: zero-annotation safety sweep over the rest of the parser package ----------------------
